@@ -140,6 +140,9 @@ func Time(name string) time.Time {
 func Dur(name string) time.Duration { return time.Duration(bigOf(unique(name)).Int64()) }
 func StrAtom(name string) string {
 	n := unique(name)
+	if s, ok := rf.Model[n+"!str"]; ok {
+		return s // the model made it equal to this concrete string of the run
+	}
 	ln := int(bigOf(n + "!len").Int64())
 	if ln < 0 || ln > 1<<16 {
 		ln = 0
